@@ -54,6 +54,18 @@ def general(tier, job_open=M_JOB, top_open=M_TOP, nest_open=M_NEST,
                          fargs={'values': list(durs)}, job_open=job_open,
                          top_open=top_open, nest_open=nest_open, extra=extra,
                          pre=True, k=2 if th else 1, bound=3 if th else 2)
+    # every scheduler verbose, every assignment of outcomes including an
+    # exception whose message is empty
+    OUT4 = [[('out', 'ret')], [('out', 'raise')], [('out', 'raise_empty')],
+            [('out', 'raise_empty'), ('critical', True)]]
+    yield from spaces.mk(['flat23', 'nest22'], force='product',
+                         fargs={'parts': [
+                             ('mods', {'alts': [[('top', 'verbose', True),
+                                                 ('n', 'verbose', True)]]}),
+                             ('outcomes', {'values': OUT4})]},
+                         job_open={'dur': [2]}, top_open={'window': [1]},
+                         nest_open={'critical': [True]}, k=1 if th else 0,
+                         bound=2)
     # empty nested schedulers as jobs
     yield from spaces.mk(['nest20', 'nest30'], force='none',
                          job_open=dict(job_open, dur=[0, 2]),
